@@ -17,8 +17,8 @@ open Cstruct Cstruct.Hexdump
     character column. -/
 theorem c19_colour_cosmetic (data : Bytes) (palette : Option (List (Int × String))) (offset : Nat) :
     (hexdump data palette offset).map (fun l => (l.offset, stripCodes l.values, stripCodes l.chars))
-      = plainDump data offset := by
-  sorry
+      = plainDump data offset :=
+  Lemmas.colour_cosmetic data palette offset
 
 /-- **Lossless, sixteen per row, in order.** The rows of the plain dump partition the input: concatenated they are the
     input, every row but the last has exactly 16 bytes and the last has between 1 and 16; row `i` carries offset
@@ -26,42 +26,42 @@ theorem c19_colour_cosmetic (data : Bytes) (palette : Option (List (Int × Strin
 theorem c19_rows (data : Bytes) (offset : Nat) :
     let rs := rows (data.length + 1) data
     rs.flatten = data ∧ (∀ r ∈ rs, 0 < r.length ∧ r.length ≤ 16) ∧ (∀ r ∈ rs.dropLast, r.length = 16) ∧
-    (plainDump data offset).map (·.1) = (List.range rs.length).map (fun i => offset + 16 * i) := by
-  sorry
+    (plainDump data offset).map (·.1) = (List.range rs.length).map (fun i => offset + 16 * i) :=
+  Lemmas.rows_spec data offset
 
 /-- **Every byte exactly once.** The hex column of a row reads back to exactly the bytes of the row. -/
 theorem c19_hex_column_inverse (row : Bytes) (h : row.length ≤ 16) :
-    parseValues 16 0 (plainValues (padRow row) 0).toList = row := by
-  sorry
+    parseValues 16 0 (plainValues (padRow row) 0).toList = row :=
+  Lemmas.hex_column_inverse row h
 
 /-- pack then unpack returns the value: for every width that is a whole number of bytes, both byte orders, every value
     that fits (negative values are packed signed and must be unpacked signed). -/
 theorem c19_pack_unpack (v : Int) (n : Nat) (e : Endian) (hn : 0 < n) (h : fits n (decide (v < 0)) v = true) :
-    ∃ bs, pack v (some (8 * n)) e = some bs ∧ bs.length = n ∧ unpack bs (some (8 * n)) e (decide (v < 0)) = some v := by
-  sorry
+    ∃ bs, pack v (some (8 * n)) e = some bs ∧ bs.length = n ∧ unpack bs (some (8 * n)) e (decide (v < 0)) = some v :=
+  Lemmas.pack_unpack v n e hn h
 
 /-- unpack then pack returns the bytes, for either signedness. -/
 theorem c19_unpack_pack (bs : Bytes) (e : Endian) (s : Bool) (hne : bs ≠ []) :
-    ∃ v, unpack bs (some (8 * bs.length)) e s = some v ∧ pack v (some (8 * bs.length)) e = some bs := by
-  sorry
+    ∃ v, unpack bs (some (8 * bs.length)) e s = some v ∧ pack v (some (8 * bs.length)) e = some bs :=
+  Lemmas.unpack_pack bs e s hne
 
 /-- pack/unpack agree with the two's-complement codecs of the integer types in the requested byte order; a value that
     does not fit is refused. -/
 theorem c19_pack_is_codec (v : Int) (n : Nat) (e : Endian) (hn : 0 < n) :
     pack v (some (8 * n)) e = encodeInt e n (decide (v < 0)) v ∧
     (∀ bs s, bs.length = n → unpack bs (some (8 * n)) e s = some (decodeInt e s bs)) ∧
-    (∀ bs s, bs.length ≠ n → unpack bs (some (8 * n)) e s = none) := by
-  sorry
+    (∀ bs s, bs.length ≠ n → unpack bs (some (8 * n)) e s = none) :=
+  Lemmas.pack_is_codec v n e hn
 
 /-- Without a size, a non-negative value is packed into as many bytes as it needs and unpacks to itself. -/
 theorem c19_pack_auto (v : Int) (e : Endian) (hv : 0 ≤ v) :
-    ∃ bs, pack v none e = some bs ∧ unpack bs none e false = some v := by
-  sorry
+    ∃ bs, pack v none e = some bs ∧ unpack bs none e false = some v :=
+  Lemmas.pack_auto v e hv
 
 /-- Swapping byte order twice is the identity on every value of the width. -/
 theorem c19_swap_involution (v : Int) (n : Nat) (hn : 0 < n) (h0 : 0 ≤ v) (h1 : v < 2 ^ (8 * n)) :
-    ∃ w, swap v (8 * n) = some w ∧ 0 ≤ w ∧ w < 2 ^ (8 * n) ∧ swap w (8 * n) = some v := by
-  sorry
+    ∃ w, swap v (8 * n) = some w ∧ 0 ≤ w ∧ w < 2 ^ (8 * n) ∧ swap w (8 * n) = some v :=
+  Lemmas.swap_involution v n hn h0 h1
 
 /-! ### Non-vacuity / sanity -/
 example : (hexdump [0x41, 0x00, 0xff] (some [(1, "R"), (0, "G"), (5, "B")]) 16).map
